@@ -35,6 +35,72 @@ type TSDispatch interface {
 	ResolveCallee(call *ssa.Call, c TSConfig) *ssa.Function
 }
 
+// TSDispatchMulti is optionally implemented by a model for calls through a table whose key is
+// not fixed by the configuration: every function the table holds may be the callee.
+type TSDispatchMulti interface {
+	ResolveCallees(call *ssa.Call, c TSConfig) []*ssa.Function
+}
+
+// TableCallees returns every function stored in the package-level map literal that v is looked
+// up in (nil when v is not such a lookup or the map is written outside its initialiser).
+func TableCallees(v ssa.Value) []*ssa.Function {
+	if ex, ok := v.(*ssa.Extract); ok && ex.Index == 0 {
+		v = ex.Tuple
+	}
+	lk, ok := v.(*ssa.Lookup)
+	if !ok {
+		return nil
+	}
+	u, ok := lk.X.(*ssa.UnOp)
+	if !ok || u.Op != token.MUL {
+		return nil
+	}
+	g, ok := u.X.(*ssa.Global)
+	if !ok || g.Pkg == nil {
+		return nil
+	}
+	var mm *ssa.MakeMap
+	clean := true
+	for _, m := range g.Pkg.Members {
+		f, isF := m.(*ssa.Function)
+		if !isF {
+			continue
+		}
+		for _, h := range WithAnons(f) {
+			EachInstr(h, func(in ssa.Instruction) {
+				switch x := in.(type) {
+				case *ssa.Store:
+					if x.Addr == ssa.Value(g) {
+						if mk, isMk := x.Val.(*ssa.MakeMap); isMk && h.Name() == "init" && mm == nil {
+							mm = mk
+						} else {
+							clean = false
+						}
+					}
+				case *ssa.MapUpdate:
+					if lu, ok := x.Map.(*ssa.UnOp); ok && lu.X == ssa.Value(g) {
+						clean = false
+					}
+				}
+			})
+		}
+	}
+	if mm == nil || !clean || mm.Referrers() == nil {
+		return nil
+	}
+	var out []*ssa.Function
+	for _, ref := range *mm.Referrers() {
+		if mu, ok := ref.(*ssa.MapUpdate); ok {
+			if f, _, isFn := FuncValueOf(mu.Value); isFn {
+				out = append(out, f)
+			} else {
+				return nil
+			}
+		}
+	}
+	return out
+}
+
 // TableCallee resolves a call through a function taken from a package-level map literal that
 // is indexed by a value the caller can evaluate (handlers[s.state]): v is the called value,
 // keyOf reports the constant the index expression has in the current configuration. The map
@@ -299,7 +365,22 @@ func (t *TS) Exec(fn *ssa.Function, entry TSConfig) []TSConfig {
 							g = UnwrapBound(d.ResolveCallee(x, c))
 						}
 					}
+					// a call through a table of functions whose key the configuration does not fix
+					// (mechanisms[name](s, …)): any of the stored functions may run
+					var multi []*ssa.Function
+					if g == nil && !x.Call.IsInvoke() {
+						if d, ok := t.M.(TSDispatchMulti); ok {
+							for _, h := range d.ResolveCallees(x, c) {
+								if h = UnwrapBound(h); h != nil && t.M.Descend(h) {
+									multi = append(multi, h)
+								}
+							}
+						}
+					}
 					if g != nil && t.M.Descend(g) {
+						multi = []*ssa.Function{g}
+					}
+					for _, g := range multi {
 						c0 := c
 						c0.E = 0
 						c0.F = 0
@@ -364,6 +445,8 @@ func (t *TS) Exec(fn *ssa.Function, entry TSConfig) []TSConfig {
 								next = append(next, tsState{c: ec, p: st.p})
 							}
 						}
+					}
+					if len(multi) > 0 {
 						continue
 					}
 				}
